@@ -81,7 +81,7 @@ def gen_table(r, maxres=12):
             if attrs and r.random() < 0.1:
                 nm = attrs[0][0]         # duplicate attribute name
             attrs.append((nm, gen_value(r)))
-        fl = r.choice([0, 0, 0, 1, 1, 2, 3])
+        fl = r.choice([0, 0, 0, 1, 1, 2, 3]) | (4 if r.random() < 0.3 else 0)
         ops.append(("R", p, fl, attrs))
         if r.random() < 0.06 and paths:
             ops.append(("D", r.choice(paths)))
